@@ -13,6 +13,9 @@ package scipipe
 //	                                   dir contains <who-substr>
 //	VERIF_SCHED=<seed>,<permille>,<max_us>  at yield points, pseudo-randomly
 //	                                   yield or sleep up to max_us microseconds
+//
+// With none of them set the hooks are passive: after the first hit they return
+// without touching the monitor's mutex, so they do not order the goroutines.
 
 import (
 	"fmt"
@@ -21,10 +24,13 @@ import (
 	"strconv"
 	"strings"
 	"sync"
+	"sync/atomic"
 	"syscall"
 	"time"
 	"unsafe"
 )
+
+var verifPassive int32 // 1 once initialised with nothing to do
 
 var verifMon struct {
 	mu       sync.Mutex
@@ -129,11 +135,17 @@ func verifJSONStr(s string) string {
 }
 
 func verifHit(point string, who string, tmp string, n int) {
+	if atomic.LoadInt32(&verifPassive) == 1 {
+		return
+	}
 	m := &verifMon
 	gid := verifGoID()
 	m.mu.Lock()
 	if !m.inited {
 		verifInit()
+		if m.evlog == nil && m.crashPt == "" && !m.schedOn {
+			atomic.StoreInt32(&verifPassive, 1)
+		}
 	}
 	m.seq++
 	switch point {
